@@ -466,8 +466,11 @@ def record_variants(rng, rec, domain):
 
 WS_COMMON = ["", " ", "\t", "  ", " \t", "\t "]
 WS_ODD = ["\x0b", "\x0c", "\r", "\x1c", "\x1d", "\x1e", "\x1f", " \x0c ", "\n"]
-REG_POOL = ["r1", "R1", "r2", "R2", "R3", "x", "X", "Ab", "aB", "AB", "sp", "$t0", "$T0", "f_1", "F_1", "r10", "a1b2", "_", "zero", "ZERO", "Zero"]
-MNEMONICS = ["add", "ADD", "Add", "sub", "lw", "LW", "sw", "mul.d", "beq", "x", "j", "Ld", "st", "nop1"]
+REG_POOL = ["r1", "R1", "r2", "R2", "R3", "x", "X", "Ab", "aB", "AB", "sp", "$t0", "$T0", "f_1", "F_1", "r10", "a1b2", "_", "zero", "ZERO", "Zero",
+            # tokens that look like syntax of richer assembly languages — here they are plain register names
+            "#1", "#r", ";x", "//c", "loop:", "r1:", "0x10", "-1", "a..b", "\\", "(r1)", "4(sp)", "r1+", "*", "@a", "%eax", "r=1", "[r2]"]
+MNEMONICS = ["add", "ADD", "Add", "sub", "lw", "LW", "sw", "mul.d", "beq", "x", "j", "Ld", "st", "nop1",
+             "nop", "NOP", "#op", ";", "//", "loop:", ".text", "end", "mov*", "a:b"]
 
 
 def gen_ws(rng, nonempty=False, odd=0.06):
@@ -600,8 +603,9 @@ def eval_parse(inp):
 # --------------------------------------------------------------------------------------------------
 # C15
 
-CAP_POOL = ["ALU", "alu", "Alu", "MEM", "mem", "Mem", "BR", "br", "FPU", "fpu", "div 2", "x"]
-ISA_MN = ["add", "ADD", "Add", "sub", "SUB", "lw", "Lw", "sw", "beq", "mul", "MUL", "j", "nop", "x1", "X1", "ld.w"]
+CAP_POOL = ["ALU", "alu", "Alu", "MEM", "mem", "Mem", "BR", "br", "FPU", "fpu", "div 2", "x", "*", "any", "ALU,MEM", "a|b", "all", "none"]
+ISA_MN = ["add", "ADD", "Add", "sub", "SUB", "lw", "Lw", "sw", "beq", "mul", "MUL", "j", "nop", "x1", "X1", "ld.w",
+          "NOP", "#op", "a,b", "a|b", "a=b", "*", "any", "loop:", "ld", "add.d", "add.w", "sub.d", "ADD.D", "lw.u"]
 
 
 def impl_load_isa(isa, caps, as_set):
@@ -682,7 +686,7 @@ def eval_isa(inp):
 
 def gen_isa_case(rng):
     ncap = rng.randint(0, 4)
-    base = rng.sample(["ALU", "MEM", "BR", "FPU", "div 2", "x", "", "0"], ncap)      # "" and "0": legal, falsy-looking names
+    base = rng.sample(["ALU", "MEM", "BR", "FPU", "div 2", "x", "", "0", "*", "any", "ALU,MEM", "a|b"], ncap)      # "" and "0": legal, falsy-looking names; names that look like wildcards / lists
     caps = ["".join(c.swapcase() if rng.random() < 0.3 else c for c in b) for b in base]
     as_set = rng.random() < 0.7
     if not as_set and caps and rng.random() < 0.5:
@@ -728,6 +732,10 @@ def gen_isa_case(rng):
                     name = "".join(ch.swapcase() if rng.random() < 0.5 else ch for ch in name)
             else:
                 name = rng.choice(["zz", "addi", "", "ad"])
+            if isa and rng.random() < 0.12:
+                # a mnemonic is one token: `add.d` is `ADD.D`, not `ADD` with a suffix; `sub` is not `sub.w` (C15-12)
+                base = rng.choice(isa)[0]
+                name = base + rng.choice([".d", ".w", ".D", "i", "s"]) if rng.random() < 0.6 else base.split(".")[0]
             srcs = [rng.choice(regs) for _ in range(rng.randint(0, 3))]
             prog.append([srcs, rng.choice(regs), name, ln * rng.randint(1, 3) + 1])
         progs.append(prog)
